@@ -50,7 +50,7 @@ class Result:
             self.rules[finding.rule]["violations"] += 1
 
     def sample(self, s):
-        if len(self.samples) < 12:
+        if len(self.samples) < 40:
             self.samples.append(s)
 
     def check_floors(self):
